@@ -69,5 +69,6 @@ TreeFacts == Complete => LET L == ConvertOut.nodes IN
                 /\ L # <<>> /\ L[1].d = 0
                 /\ \A i \in 2..Len(L) : L[i].d <= L[i - 1].d + 1                 \* pre-order listing of a forest
 GDump == Complete => PrintT(<<"VEC", ToJson([s |-> s, out |-> ConvertOut, printed |-> Printed,
-                                              indent |-> [pug |-> IndentPrinted("pug"), haml |-> IndentPrinted("haml"), slim |-> IndentPrinted("slim")]])>>)
+                                              indent |-> [pug |-> IndentPrinted("pug"), haml |-> IndentPrinted("haml"), slim |-> IndentPrinted("slim")],
+                                              marked |-> [html |-> PrintedF, pug |-> IndentPrintedF("pug"), haml |-> IndentPrintedF("haml"), slim |-> IndentPrintedF("slim")]])>>)
 =============================================================================
